@@ -5,10 +5,11 @@ COQFLAGS_TIMEOUT = 3000
 
 .PHONY: setup coq driver driver-only clean tables
 
-setup: tables coq driver
+setup: tables driver coq
 
 tables:
 	/venv/bin/python tools/gen_tables.py all
+	-/venv/bin/python tools/py2coq.py all
 
 $(COQMK): coq/_CoqProject
 	cd coq && coq_makefile -f _CoqProject -o Makefile.coq
